@@ -175,6 +175,9 @@ Definition dec_digits (n : N) : list N := rev (digits_rev 20 n).
 (* ---------------------------------------------------------------------------------------------- *)
 (* FromStr / Display *)
 
+(* `c == '-'` on a char *)
+Definition is_hyphen (c : list N) : bool := match c with [45] => true | _ => false end.
+
 Definition inner {E} (s : list N) : res E (list N) := slice s 1 (length s - 1).
 
 Definition from_str (s : list N) : res parse_error local_id :=
@@ -205,7 +208,6 @@ Definition from_str (s : list N) : res parse_error local_id :=
   else if starts_with s 123 && ends_with s 125 then
     i <- inner s ;;
     let cs := chars i in
-    let is_hyphen (c : list N) := match c with [45] => true | _ => false end in
     if Nat.eqb (length cs) 67 && is_hyphen (nth 16 cs []) && is_hyphen (nth 33 cs [])
        && is_hyphen (nth 50 cs [])
     then
